@@ -5,7 +5,7 @@
 # usage: tools/eval_mutant_isolated.sh <patch.diff> <budget_s> <check id>...
 set -u
 patch=$(readlink -f "$1"); budget=$2; shift 2
-ISO=/tmp/mut-iso
+ISO=${ISO:-/tmp/mut-iso}
 mkdir -p $ISO
 if [ ! -d $ISO/repo ]; then git -C /repo worktree add --detach $ISO/repo HEAD -q || exit 2; fi
 git -C $ISO/repo checkout -q --detach $(git -C /repo rev-parse HEAD) && git -C $ISO/repo checkout -- . || exit 2
